@@ -2534,7 +2534,7 @@ impl Compiler {
         use super::FunctionInfo;
 
         // Create a new compiler for the function body
-        let mut func_compiler = super::Compiler::new();
+        let mut func_compiler = self.nested_function_compiler();
 
         // Reserve registers for parameters - they are passed in registers 0, 1, 2...
         // We must reserve these before any other register allocation
